@@ -19,9 +19,9 @@ CFG = dict(
          "recover() and a timeout. Direct check: error, or byte-identical to what the pristine store returned. Cases "
          "for the model: the tx-log bytes from the record's offset to the end of the log with what ReadTx / ReadTx(skip) / "
          "ReadTxHeader returned, the value logs with what ReadValue returned, the value part of ExportTx, the pristine "
-         "records against the model writer, SHA-256 vectors. vLen is kept below 4 MiB (one probe per store with "
-         "1 GiB measures the allocation; one probe on the compressed log with vLen+1 measures the allocation that "
-         "commit 73fe655 removed). A case is non-trivial when bytes the read touches were altered or (pristine "
+         "records against the model writer, SHA-256 vectors. vLen is kept below 4 MiB; three regression probes: vLen = 1 GiB (allocation "
+         "measured with runtime.MemStats; fixed by 85f50b0), value-log ids the store does not have (panic fixed by "
+         "c6a3ff8), vLen+1 on the compressed log (allocation fixed by 73fe655): each is a VIOLATION if it comes back. A case is non-trivial when bytes the read touches were altered or (pristine "
          "cases) a whole real record/value is involved; distinct by full case content.",
     trusted_base=COMMON_TB + [
         "modelled (coq/Corrupt/TxRecord.v): record layout of performPrecommit (header versions 0 and 1, embedded-values "
